@@ -3,6 +3,17 @@
 package provider
 
 import (
+	"context"
+	"fmt"
+	"time"
+
+	"github.com/ipfs/go-datastore"
+	dssync "github.com/ipfs/go-datastore/sync"
+	logging "github.com/ipfs/go-log/v2"
+	"github.com/ipfs/go-libdht/kad/key/bit256"
+	"github.com/ipfs/go-libdht/kad/key/bitstr"
+	"github.com/ipfs/go-libdht/kad/trie"
+
 	"github.com/libp2p/go-libp2p-kad-dht/provider/internal/keyspace"
 )
 
@@ -15,4 +26,75 @@ func (s *SweepingProvider) VerifSchedule() []string {
 		out = append(out, string(k))
 	}
 	return out
+}
+
+// VerifBare builds a provider that holds only the scheduling state, as the repository's own
+// TestGroupAndScheduleKeysByPrefix does: the scheduling functions are then called directly.
+func VerifBare(order bit256.Key, interval, maxDelay time.Duration) *SweepingProvider {
+	return &SweepingProvider{
+		order:             order,
+		reprovideInterval: interval,
+		maxReprovideDelay: maxDelay,
+		schedule:          trie.New[bitstr.Key, time.Duration](),
+		scheduleTimer:     time.NewTimer(time.Hour),
+		datastore:         dssync.MutexWrap(datastore.NewMapDatastore()),
+		done:              make(chan struct{}),
+		ctx:               context.Background(),
+		logger:            logging.Logger("verif-bare"),
+
+		cachedAvgPrefixLen: 3,
+		lastAvgPrefixLen:   time.Now(),
+	}
+}
+
+// VerifSetOffset moves the start of the cycle so that the current offset in the cycle is `cur`.
+func (s *SweepingProvider) VerifSetOffset(cur time.Duration) { s.cycleStart = time.Now().Add(-cur) }
+
+func (s *SweepingProvider) VerifPut(prefix string, t time.Duration) {
+	s.schedule.Add(bitstr.Key(prefix), t)
+}
+
+func (s *SweepingProvider) VerifSchedulePrefix(prefix string, justReprovided bool) {
+	s.scheduleLk.Lock()
+	defer s.scheduleLk.Unlock()
+	s.schedulePrefixNoLock(bitstr.Key(prefix), justReprovided)
+}
+
+func (s *SweepingProvider) VerifUnschedule(prefix string) {
+	s.scheduleLk.Lock()
+	defer s.scheduleLk.Unlock()
+	s.unscheduleSubsumedPrefixesNoLock(bitstr.Key(prefix))
+}
+
+// VerifEntries: the schedule as prefix:seconds, in the schedule's own order.
+func (s *SweepingProvider) VerifEntries() []string {
+	var out []string
+	for _, e := range keyspace.AllEntries(s.schedule, s.order) {
+		out = append(out, fmt.Sprintf("%s:%d", string(e.Key), int64(e.Data/time.Second)))
+	}
+	return out
+}
+
+func (s *SweepingProvider) VerifSlot(prefix string) time.Duration {
+	return s.reprovideTimeForPrefix(bitstr.Key(prefix))
+}
+
+func (s *SweepingProvider) VerifTimeBetween(a, b time.Duration) time.Duration { return s.timeBetween(a, b) }
+
+func (s *SweepingProvider) VerifTimeUntil(d time.Duration) time.Duration { return s.timeUntil(d) }
+
+// VerifHistory records a successful reprovide of prefix at the current (virtual) time.
+func (s *SweepingProvider) VerifHistory(prefix string) { s.persistSuccessfulReprovide(bitstr.Key(prefix)) }
+
+// VerifRecent: the regions loadRecentlyReprovidedRegions counts as recently reprovided now.
+func (s *SweepingProvider) VerifRecent() ([]string, error) {
+	t, err := s.loadRecentlyReprovidedRegions(time.Now())
+	if err != nil {
+		return nil, err
+	}
+	var out []string
+	for _, k := range keyspace.AllKeys(t, s.order) {
+		out = append(out, string(k))
+	}
+	return out, nil
 }
